@@ -60,6 +60,18 @@ func parFamily(op Op) string {
 	return f
 }
 
+// where in its epoch the clock stands when the cleaning job runs (the job is scheduled by wall
+// time, not by epoch): anywhere, the last slot fairly often
+func genCleanOff(r *Rand, spe uint64) uint64 {
+	switch r.Intn(4) {
+	case 0:
+		return 0
+	case 1:
+		return spe - 1
+	}
+	return uint64(r.Intn(int(spe)))
+}
+
 func genClean(r *Rand, baseEpoch uint64) uint64 {
 	e := baseEpoch + uint64(r.Intn(4))
 	if r.Chance(1, 6) {
@@ -141,7 +153,7 @@ func genPar(r *Rand, h *History, nroots int, baseEpoch uint64) Op {
 		case 1:
 			op.Extras = append(op.Extras, PExtra{At: at, Kind: "set", Root: root, Slot: h.Chain[root]})
 		default:
-			op.Extras = append(op.Extras, PExtra{At: at, Kind: "clean", Epoch: genClean(r, baseEpoch)})
+			op.Extras = append(op.Extras, PExtra{At: at, Kind: "clean", Epoch: genClean(r, baseEpoch), Off: genCleanOff(r, h.SPE)})
 		}
 	}
 	return op
@@ -249,7 +261,7 @@ func gen(r *Rand) History {
 			}
 			h.Ops = append(h.Ops, op)
 		case k < 16:
-			h.Ops = append(h.Ops, Op{Kind: "clean", Epoch: genClean(r, baseEpoch)})
+			h.Ops = append(h.Ops, Op{Kind: "clean", Epoch: genClean(r, baseEpoch), Off: genCleanOff(r, h.SPE)})
 		case k < 18:
 			if op, ok := headOf(root); ok {
 				h.Ops = append(h.Ops, op)
